@@ -1,5 +1,6 @@
 """pyvc.driver — per-property T1 run: extract, generate VCs, discharge, guards, verdicts."""
 import importlib
+import json
 import os
 import pkgutil
 import time
@@ -149,8 +150,27 @@ def lemma_as_axiom(reg, name):
     return z3.ForAll(vs, z3.Implies(z3.And(*hyps + [z3.BoolVal(True)]), body))
 
 
+_SHAPES = None
+
+
+def expected_shape(key):
+    global _SHAPES
+    if _SHAPES is None:
+        try:
+            with open(os.path.join(os.path.dirname(os.path.dirname(os.path.abspath(__file__))), "contracts", "shapes.json")) as f:
+                _SHAPES = json.load(f)
+        except (OSError, ValueError):
+            _SHAPES = {}
+    return _SHAPES.get(key)
+
+
 def gen_function_vcs(reg, c, small_scope=None, root=None):
     fndef, imports, sha, line = extract.load(root or REPO, c.path, c.qualname)
+    want = expected_shape(c.key) if root is None else None
+    if want is not None and extract.loop_shape(fndef) != want:
+        # the invariants are keyed by loop ordinal: on another loop structure they do not talk about the same loops
+        raise sx.Unsupported("loop structure changed (contract written for '%s', found '%s'): invariants not applicable"
+                             % (want, extract.loop_shape(fndef)))
     sx._fresh.reset()
     eng = sx.Engine(c.key, fndef, imports, c, reg, reg.specs, small_scope=small_scope)
     vcs = eng.run_function()
@@ -424,7 +444,8 @@ def run_property(prop, tier, seed):
             frag = getattr(c, "fragment", None)
             if frag:
                 what = ("the body of loop #%d (one arbitrary iteration)" % frag["body_of_loop"]) if "body_of_loop" in frag else (
-                    "the first %d statement(s)" % frag["head"]) if "head" in frag else (
+                    ("the statements up to the first one that can raise" if frag["head"] == "guard" else
+                     "the first %d statement(s)" % frag["head"])) if "head" in frag else (
                     "top-level loop #%d%s" % (frag["loop"], (" and the %d statements before it" % frag["prelude"])
                                               if frag.get("prelude") else ""))
                 out["assumptions"].append("fragment %s: only %s of the function is verified, from the live-in variables "
